@@ -72,6 +72,47 @@ use crate::grisubal::{
     timers::{finish, start_timer, unsafe_time_section},
 };
 
+/// Verification hook: entry points to crate-private steps of the algorithm.
+#[cfg(honeycomb_verif)]
+pub mod verif {
+    use honeycomb_core::{
+        cmap::{CMap2, DartIdType},
+        geometry::{CoordsFloat, Vertex2},
+    };
+
+    pub use super::model::{Boundary, Geometry2};
+    use super::GrisubalError;
+
+    /// Verification hook: the `clip_left` step.
+    ///
+    /// # Errors
+    ///
+    /// Same as the wrapped routine.
+    pub fn clip_left<T: CoordsFloat>(cmap: &mut CMap2<T>) -> Result<(), GrisubalError> {
+        super::routines::clip_left(cmap)
+    }
+
+    /// Verification hook: the `clip_right` step.
+    ///
+    /// # Errors
+    ///
+    /// Same as the wrapped routine.
+    pub fn clip_right<T: CoordsFloat>(cmap: &mut CMap2<T>) -> Result<(), GrisubalError> {
+        super::routines::clip_right(cmap)
+    }
+
+    /// Verification hook: the `(dart, t)` pairs computed by the intersection step.
+    pub fn intersection_data<T: CoordsFloat>(
+        cmap: &CMap2<T>,
+        geometry: &Geometry2<T>,
+        n_cells: [usize; 2],
+        cell_sizes: [T; 2],
+        origin: Vertex2<T>,
+    ) -> Vec<(DartIdType, T)> {
+        super::routines::generate_intersection_data(cmap, geometry, n_cells, cell_sizes, origin).1
+    }
+}
+
 /// Post-processing clip operation.
 ///
 /// Note that the part of the map that is clipped depends on the orientation of the original geometry provided as
